@@ -43,7 +43,7 @@ func c11r1(c *an.Ctx) {
 	}
 	c.Note("appendEntry layout: %s", an.LayoutString(enc))
 	want := []struct{ kind, src string }{
-		{"byte", "10"}, {"varint", "encodedStringSize"}, {"byte", "10"}, {"varint", "len(key)"}, {"bytes", "key"}, {"byte", "18"}, {"varint", "len(value)"}, {"bytes", "value"},
+		{"byte", "10"}, {"varint", ""}, {"byte", "10"}, {"varint", "len(key)"}, {"bytes", "key"}, {"byte", "18"}, {"varint", "len(value)"}, {"bytes", "value"},
 	}
 	ok := len(enc) == len(want)
 	if ok {
@@ -56,19 +56,24 @@ func c11r1(c *an.Ctx) {
 	c.Check(ok, "appendEntry | emits tag 0x0a, entry len, tag 0x0a, len(key), key, tag 0x12, len(value), value", c.P.Pos(ae.Pos()), an.LayoutString(enc),
 		"the metadata entry encoder emits "+an.LayoutString(enc)+", not the protobuf encoding of map<string,string> field 1 {1: key, 2: value}")
 	if ok {
-		// entry length is built from both strings
-		src := enc[1].Src
-		c.Check(strings.Contains(src, "key") && strings.Contains(src, "value"), "appendEntry | entry length covers key and value", c.At(enc[1].At), src, "the announced entry length does not depend on both key and value: "+src)
-	}
-	ess := c.Fn("drpcmetadata", "encodedStringSize")
-	okSize := false
-	for _, ret := range an.Returns(ess) {
-		s := an.Render(ret.Results[0], 6)
-		if strings.Contains(s, "1") && strings.Contains(s, "varintSize") && strings.Count(s, "len(x)") >= 2 {
-			okSize = true
+		// the announced entry length, as a linear form over len(key), len(value) and the varint sizes of those
+		// lengths, must be (1 + VS(len key) + len key) + (1 + VS(len value) + len value) -- wherever the pieces
+		// are computed (a helper per string, locals, in place)
+		var lenArg ssa.Value
+		if call, isCall := enc[1].At.(*ssa.Call); isCall && len(call.Common().Args) >= 2 {
+			lenArg = call.Common().Args[1]
 		}
+		got, okLin := linearForm(c, lenArg, ae, 0)
+		wantLin := map[string]int64{"1": 2, "len(key)": 1, "len(value)": 1, "VS(len(key))": 1, "VS(len(value))": 1}
+		same := okLin && len(got) == len(wantLin)
+		for k, v := range wantLin {
+			if got[k] != v {
+				same = false
+			}
+		}
+		c.Check(same, "appendEntry | entry length = (1 + varintSize(len key) + len key) + (1 + varintSize(len value) + len value)", c.At(enc[1].At), fmt.Sprint(got),
+			fmt.Sprintf("the announced entry length is %v: it does not equal the bytes that follow (tag, length prefix and bytes of both strings), so a standard protobuf decoder (v0.0.17's, or this package's own) rejects or misreads the entry", got))
 	}
-	c.Check(okSize, "encodedStringSize | 1 + varintSize(len) + len", c.P.Pos(ess.Pos()), "", "the encoded size of a string field is not tag + length prefix + bytes")
 
 	// decoder: tags compared, varints threaded, slices at the announced lengths
 	// tag expectations along the execution of a decoder function: direct comparisons of buf[0] with a
@@ -137,20 +142,58 @@ func c11r1(c *an.Ctx) {
 		return out
 	}
 	re := c.Fn("drpcmetadata", "readEntry")
-	rkv := c.Fn("drpcmetadata", "readKeyValue")
-	t1, t2 := tagsOf(re), tagsOf(rkv)
-	c.Check(len(t1) == 1 && t1[0] == 10, "readEntry | expects tag 0x0a", c.P.Pos(re.Pos()), fmt.Sprint(t1), fmt.Sprintf("readEntry compares the first byte with %v, the encoder writes 10", t1))
-	c.Check(len(t2) == 2 && t2[0] == 10 && t2[1] == 18, "readKeyValue | expects tag 0x0a then tag 0x12", c.P.Pos(rkv.Pos()), fmt.Sprint(t2), fmt.Sprintf("readKeyValue compares tags %v, the encoder writes 10 then 18", t2))
-	// every slice at a decoded length is guarded by length <= len(buf) (the compiler proves the rest)
-	decFns := []*ssa.Function{re, rkv}
-	for _, root := range []*ssa.Function{re, rkv} {
-		an.Instrs(root, func(in ssa.Instruction) {
-			if call, ok := in.(*ssa.Call); ok {
-				if callee := call.Common().StaticCallee(); callee != nil && len(callee.Blocks) > 0 && c.P.PkgOfFunc(callee) == c.P.PkgOfFunc(root) && callee != re && callee != rkv {
-					decFns = append(decFns, callee)
-				}
+	// the tags the decoder expects, in the order it compares them, through whatever same-package helpers it uses
+	// (a readKeyValue for the inside of the entry, a generic readField, or everything in place)
+	var allTags func(fn *ssa.Function, depth int) []int64
+	allTags = func(fn *ssa.Function, depth int) []int64 {
+		if depth > 3 {
+			return nil
+		}
+		type ev struct {
+			in ssa.Instruction
+			ks []int64
+		}
+		var evs []ev
+		for _, te := range tagEvents(fn, 0) {
+			if te.param < 0 {
+				evs = append(evs, ev{te.in, []int64{te.k}})
+			}
+		}
+		direct := map[ssa.Instruction]bool{}
+		for _, e := range evs {
+			direct[e.in] = true
+		}
+		an.Instrs(fn, func(in ssa.Instruction) {
+			call, isCall := in.(*ssa.Call)
+			if !isCall || direct[in] {
+				return
+			}
+			callee := call.Common().StaticCallee()
+			if callee == nil || callee == fn || len(callee.Blocks) == 0 || c.P.PkgOfFunc(callee) != c.P.PkgOfFunc(fn) {
+				return
+			}
+			if sub := allTags(callee, depth+1); len(sub) > 0 {
+				evs = append(evs, ev{in, sub})
 			}
 		})
+		sort.SliceStable(evs, func(i, j int) bool { return evs[i].in != evs[j].in && an.InstrDominates(evs[i].in, evs[j].in) })
+		var out []int64
+		for _, e := range evs {
+			out = append(out, e.ks...)
+		}
+		return out
+	}
+	tags := allTags(re, 0)
+	c.Check(len(tags) >= 1 && tags[0] == 10, "readEntry | expects tag 0x0a", c.P.Pos(re.Pos()), fmt.Sprint(tags), fmt.Sprintf("readEntry compares the first byte with %v, the encoder writes 10", tags))
+	c.Check(len(tags) == 3 && tags[1] == 10 && tags[2] == 18, "readKeyValue | expects tag 0x0a then tag 0x12", c.P.Pos(re.Pos()), fmt.Sprint(tags), fmt.Sprintf("inside the entry the decoder compares tags %v, the encoder writes 10 then 18", tags))
+	_ = tagsOf
+	// every slice at a decoded length is guarded by length <= len(buf) (the compiler proves the rest)
+	decFns := extendedBody(re)
+	rkv := re
+	for _, fn := range decFns {
+		if nameOf(fn) == "readKeyValue" {
+			rkv = fn
+		}
 	}
 	nSlAll, nRVAll := 0, 0
 	for _, fn := range decFns {
@@ -192,13 +235,15 @@ func c11r1(c *an.Ctx) {
 	c.Check(nRVAll >= 3, "metadata decoder | entry, key and value lengths are varints", c.P.Pos(re.Pos()), fmt.Sprint(nRVAll), fmt.Sprintf("only %d ReadVarint calls in the metadata decoder", nRVAll))
 	// readKeyValue rejects trailing bytes; readEntry passes exactly buf[:length]
 	okTrail := false
-	an.Instrs(rkv, func(in ssa.Instruction) {
-		if b, ok := in.(*ssa.BinOp); ok && b.Op == token.NEQ {
-			if k, isC := an.ConstInt(b.Y); isC && k == 0 && lenOperand(b.X) != nil {
-				okTrail = true
+	for _, fn := range decFns {
+		an.Instrs(fn, func(in ssa.Instruction) {
+			if b, ok := in.(*ssa.BinOp); ok && (b.Op == token.NEQ || b.Op == token.EQL || b.Op == token.GTR) {
+				if k, isC := an.ConstInt(b.Y); isC && k == 0 && lenOperand(b.X) != nil {
+					okTrail = true
+				}
 			}
-		}
-	})
+		})
+	}
 	c.Check(okTrail, "readKeyValue | entry must be consumed exactly", c.P.Pos(rkv.Pos()), "", "trailing bytes inside an entry are ignored")
 	// totality: BCE + loops
 	n := checkBCE(c, map[string]bool{"readEntry": true, "readKeyValue": true, "Decode": true, "appendEntry": true, "Encode": true, "varintSize": true, "encodedStringSize": true}, "metadata codec")
@@ -555,4 +600,123 @@ func privateEncodedMetadata(v ssa.Value, fn *ssa.Function, encode, mdGet *types.
 		}
 	}
 	return "unrecognised source " + an.R(v)
+}
+
+// linearForm evaluates an unsigned integer expression of the metadata encoder to a linear form over the atoms
+// len(<param>), VS(len(<param>)) (= varintSize of that length) and "1" (the constant term). Conversions are
+// transparent, same-package helpers with one return are evaluated with their parameters bound.
+func linearForm(c *an.Ctx, v ssa.Value, fn *ssa.Function, depth int) (map[string]int64, bool) {
+	return linearFormEnv(c, v, nil, depth)
+}
+
+func linearFormEnv(c *an.Ctx, v ssa.Value, env map[ssa.Value]ssa.Value, depth int) (map[string]int64, bool) {
+	if v == nil || depth > 12 {
+		return nil, false
+	}
+	if b, ok := env[v]; ok {
+		return linearFormEnv(c, b, nil, depth+1)
+	}
+	v = an.Resolve(v)
+	if b, ok := env[v]; ok {
+		return linearFormEnv(c, b, nil, depth+1)
+	}
+	if k, isK := an.ConstInt(v); isK {
+		if k == 0 {
+			return map[string]int64{}, true
+		}
+		return map[string]int64{"1": k}, true
+	}
+	add := func(a, b map[string]int64) map[string]int64 {
+		out := map[string]int64{}
+		for k, x := range a {
+			out[k] += x
+		}
+		for k, x := range b {
+			out[k] += x
+		}
+		for k, x := range out {
+			if x == 0 {
+				delete(out, k)
+			}
+		}
+		return out
+	}
+	atomOf := func(x ssa.Value) (string, bool) {
+		x = an.Resolve(x)
+		for {
+			if cv, ok := x.(*ssa.Convert); ok {
+				x = an.Resolve(cv.X)
+				continue
+			}
+			break
+		}
+		if b, ok := env[x]; ok {
+			x = an.Resolve(b)
+			for {
+				if cv, ok := x.(*ssa.Convert); ok {
+					x = an.Resolve(cv.X)
+					continue
+				}
+				break
+			}
+		}
+		if l := lenOperand(x); l != nil {
+			r := an.Resolve(l)
+			if b, ok := env[r]; ok {
+				r = an.Resolve(b)
+			}
+			if p, ok := r.(*ssa.Parameter); ok {
+				return "len(" + p.Name() + ")", true
+			}
+		}
+		return "", false
+	}
+	switch x := v.(type) {
+	case *ssa.Convert:
+		return linearFormEnv(c, x.X, env, depth+1)
+	case *ssa.BinOp:
+		if x.Op == token.ADD {
+			a, ok1 := linearFormEnv(c, x.X, env, depth+1)
+			b, ok2 := linearFormEnv(c, x.Y, env, depth+1)
+			if ok1 && ok2 {
+				return add(a, b), true
+			}
+		}
+		return nil, false
+	case *ssa.Call:
+		if a, ok := atomOf(x); ok {
+			return map[string]int64{a: 1}, true
+		}
+		callee := x.Common().StaticCallee()
+		if callee == nil {
+			return nil, false
+		}
+		if nameOf(callee) == "varintSize" && len(x.Common().Args) == 1 {
+			if a, ok := atomOf(x.Common().Args[0]); ok {
+				return map[string]int64{"VS(" + a + ")": 1}, true
+			}
+			return nil, false
+		}
+		if c.P.PkgOfFunc(callee) != nil && len(callee.Blocks) > 0 && callee.Pkg != nil && strings.HasSuffix(callee.Pkg.Pkg.Path(), "drpcmetadata") {
+			rets := an.Returns(callee)
+			if len(rets) != 1 || len(rets[0].Results) != 1 {
+				return nil, false
+			}
+			nenv := map[ssa.Value]ssa.Value{}
+			for i, p := range callee.Params {
+				if i < len(x.Common().Args) {
+					arg := x.Common().Args[i]
+					if b, ok := env[an.Resolve(arg)]; ok {
+						arg = b
+					}
+					nenv[p] = arg
+				}
+			}
+			return linearFormEnv(c, rets[0].Results[0], nenv, depth+1)
+		}
+	}
+	if a, ok := atomOf(v); ok {
+		return map[string]int64{a: 1}, true
+	}
+	return nil, false
 }
